@@ -89,6 +89,7 @@ type FuncEnc struct {
 	heapStable     map[string]bool
 	notes          []string              // unsupported constructs encountered
 	allocs         []string              // fresh refs allocated so far (for distinctness)
+	allocSeq       int                   // birth stamps handed out so far
 	protected      map[string]types.Type // alloc refs that never escape: ref -> pointee type
 	nowLast        string
 	top            *Frame
